@@ -798,6 +798,37 @@ def gen_struct(rng, n):
     return out
 
 
+def gen_subattrs(rng, n):
+    """several attribute changes of ONE kind on one element, with names (and name:value entries) that contain one another:
+    the diff:add-attr / delete-attr / update-attr / rename-attr annotations list every one of them"""
+    names = ["ref", "href", "name", "filename", "type", "subtype", "set", "srcset", "id", "xid"]
+    out = []
+    for _ in range(n):
+        def attrs(k):
+            return {a: rng.choice(["1", "1", "2"]) for a in rng.sample(names, k)}
+        root = etree.Element("doc")
+        root.text = "t"
+        for i in range(rng.randint(1, 3)):
+            e = etree.SubElement(root, rng.choice(["a", "b"]))
+            e.text = "text %d" % i
+            for a, v in attrs(rng.randint(1, 4)).items():
+                e.set(a, v)
+        R = deepcopy(root)
+        for e in R:
+            for a in list(e.attrib):
+                r_ = rng.random()
+                if r_ < .35:
+                    del e.attrib[a]
+                elif r_ < .6:
+                    e.set(a, e.get(a) + "x")
+            for a, v in attrs(rng.randint(0, 3)).items():
+                if a not in e.attrib:
+                    e.set(a, v)
+        out.append({"kind": "struct", "left": xml(root), "right": xml(R), "cfg": rand_cfg(rng),
+                    "opts": {}, "late": False})
+    return out
+
+
 def gen_texttags(rng, n):
     out = []
     for _ in range(n):
@@ -1155,6 +1186,7 @@ def gen_inputs(run, rng):
     cases += gen_lines(rng, 5 if quick else 60)
     cases += gen_struct(rng, 500 if quick else 5000)
     cases += gen_texttags(rng, 500 if quick else 5000)
+    cases += gen_subattrs(rng, 60 if quick else 600)
     cases += gen_wsonly(rng, 40 if quick else 300)
     cases += gen_latectr(rng, 80 if quick else 800)
     cases += gen_sibshift(rng, 40 if quick else 300)
